@@ -543,6 +543,97 @@ def main() -> int:
         w.end("hyperv")
     except Exception as e:  # noqa
         problems.append(f"hyperv: {e}")
+    # ---------------- vmx (encrypted VMX: tables + the literals the unlock path compares / indexes with)
+    try:
+        import textwrap
+        from dissect.hypervisor.descriptor import vmx as m_vmx
+
+        def _vmx_tree(qualname):
+            obj = m_vmx
+            for part in qualname.split("."):
+                obj = getattr(obj, part)
+            obj = getattr(obj, "fget", obj)          # properties
+            obj = getattr(obj, "__func__", obj)      # classmethods
+            return ast.parse(textwrap.dedent(inspect.getsource(obj)))
+
+        def _vmx_strs(qualname):
+            """the short string constants of a function body (keywords, dictionary keys, separators; messages and
+            docstrings are dropped), in source order - independent of how the comparisons / lookups are spelled"""
+            out = []
+            for n in ast.walk(_vmx_tree(qualname)):
+                if isinstance(n, ast.Constant) and isinstance(n.value, str) and 0 < len(n.value) <= 24 \
+                        and not any(ch.isspace() for ch in n.value):
+                    out.append((n.lineno, n.col_offset, n.value))
+            return [v for _, _, v in sorted(out)]
+
+        def _vmx_probe_decrypt_hmac():
+            """[IV length, ciphertext start, smallest and largest accepted PKCS#7 pad length] of _decrypt_hmac, measured on the
+            live function with an identity cipher in place of AES (robust against refactoring of the slices / checks)"""
+            import hmac as _h
+            rec = {}
+
+            class _Ident:
+                def decrypt(self, b):
+                    rec["ct"] = bytes(b)
+                    return bytes(b)
+
+            def fake(key, iv):
+                rec["iv"] = bytes(iv)
+                return _Ident()
+            name, (alg, size) = next(iter(m_vmx.HMAC_MAP.items()))
+            orig = m_vmx._create_cipher
+            m_vmx._create_cipher = fake
+            try:
+                key = b"k" * 32
+                data = bytes(range(40, 40 + 112))
+                try:
+                    m_vmx._decrypt_hmac(key, data, name)
+                except ValueError:
+                    pass
+                iv_len = len(rec["iv"])
+                assert rec["iv"] == data[:iv_len] and rec["ct"] and data.endswith(rec["ct"] + data[len(data) - size:])
+                ct_start = data.index(rec["ct"])
+                accepted = []
+                for b in range(0, 64):                      # text 0xAA.. followed by b bytes of value b, MAC over the text alone
+                    text = b"\xaa" * (64 - b)
+                    plain = text + bytes([b]) * b if b else text[:-1] + b"\x00"
+                    blob = bytes(iv_len) + bytes(ct_start - iv_len) + plain + _h.new(key, text, alg).digest()[:size]
+                    try:
+                        if m_vmx._decrypt_hmac(key, blob, name) == text:
+                            accepted.append(b)
+                    except ValueError:
+                        pass
+                assert accepted and accepted == list(range(accepted[0], accepted[-1] + 1))
+                return [iv_len, ct_start, accepted[0], accepted[-1]]
+            finally:
+                m_vmx._create_cipher = orig
+
+        def _bl(s):
+            return lean_bytes(s.encode("utf-8"))
+
+        def _bytes_list(name, vs):
+            w.raw(f"def {name} : List (List UInt8) := [{', '.join(_bl(v) for v in vs)}]")
+            w.fp[f"vmx.{name}"] = list(vs)
+
+        w.ns("vmx")
+        cks, hm, p2k = get(m_vmx, "CIPHER_KEY_SIZES") or {}, get(m_vmx, "HMAC_MAP") or {}, get(m_vmx, "PASS2KEY_MAP") or {}
+        w.raw("def CIPHER_KEY_SIZES : List (List UInt8 × Nat) := [" + ", ".join(f"({_bl(k)}, {int(v)})" for k, v in cks.items()) + "]")
+        w.fp["vmx.CIPHER_KEY_SIZES"] = {k: int(v) for k, v in cks.items()}
+        w.raw("def HMAC_MAP : List (List UInt8 × List UInt8 × Nat) := [" + ", ".join(f"({_bl(k)}, {_bl(v[0])}, {int(v[1])})" for k, v in hm.items()) + "]")
+        w.fp["vmx.HMAC_MAP"] = {k: [v[0], int(v[1])] for k, v in hm.items()}
+        w.raw("def PASS2KEY_MAP : List (List UInt8 × List UInt8) := [" + ", ".join(f"({_bl(k)}, {_bl(v)})" for k, v in p2k.items()) + "]")
+        w.fp["vmx.PASS2KEY_MAP"] = dict(p2k)
+        _bytes_list("from_text_strs", _vmx_strs("KeySafe.from_text"))
+        _bytes_list("locator_strs", _vmx_strs("_parse_key_locator"))
+        _bytes_list("unseal_strs", _vmx_strs("KeySafe.unseal_with_phrase"))
+        _bytes_list("unlock_strs", _vmx_strs("VMX.unlock_with_phrase"))
+        _bytes_list("encrypted_strs", _vmx_strs("VMX.encrypted"))
+        _bytes_list("crypto_dict_strs", _vmx_strs("_parse_crypto_dict"))
+        _bytes_list("split_list_strs", _vmx_strs("_split_list"))
+        w.natlist("decrypt_hmac_probe", _vmx_probe_decrypt_hmac(), key="vmx.decrypt_hmac_probe")
+        w.end("vmx")
+    except Exception as e:  # noqa
+        problems.append(f"vmx: {e}")
 
     extra = HERE / "extract_more.py"
     if extra.exists():
